@@ -383,6 +383,15 @@ def run(ctx, rep):
     rep.floor('guarded mutations in copy-on-write routines', ncta, 2)
     from . import rollback
     rollback.report(f, P, rep, 'C10.7', ('restore',))
+    # C10.10: the roll-back of C10.7 only runs when the failure of the copy is still known: no error-discarding combinator on
+    # the results of the copy-on-write path (functions that install mappings or run the merge, and the data-file write path)
+    from . import c17 as _c17
+    rep.rule('C10.10', 'no error-discarding combinator (or / ok / unwrap_or / unwrap_or_default) is applied to a Result of the '
+                       'copy-on-write path: a failed copy is reported and rolled back, not acknowledged')
+    _scope = {r['fn'] for r in rollback.analyse(f, P)} | {n for n in (short(b.path) for b in f.body_list) if 'cow' in n.lower() or n.startswith('do_write')}
+    _n = _c17.discard_combinators(f, rep, 'C10.10', scope=lambda n: n in _scope)
+    rep.ob('C10.10', 'error-discarding combinators in %d copy-on-write path functions' % len(_scope), _n == 0, '%d call(s)' % _n)
+    rep.floor('copy-on-write path functions scanned for discarded errors', len(_scope), 4)
     cow_only_rule(f, P, rep, 'C10.8')
     ncow = 0
     from .c06 import cow_merge_fns
